@@ -177,9 +177,10 @@ def absorbs(F, h, adt, variant, region=None):
         # reachable from tgt without passing a block also reachable from the other edges
         others = set()
         for v, tb in explicit.items():
-            if v != dv:
+            if v != dv and tb != tgt:
                 others |= h.reachable(tb)
-        others |= h.reachable(t["otherwise"])
+        if t["otherwise"] != tgt:
+            others |= h.reachable(t["otherwise"])
         own = reach - others
         own_rets = [(bb, i, rv) for bb, i, rv in returns_of(h) if bb in own]
         if own_rets and all(i is not None and rv["k"] == "agg" and rv.get("variant") == "Ok" for bb, i, rv in own_rets):
